@@ -24,6 +24,7 @@ ASSUMPTIONS = ["the scripted server answers a request once it has been completel
 LEVEL_TEXT = "sampled exploration of (stream, segmentation) pairs with an exact metamorphic relation; thorough tier enumerates every single split point of each sampled stream"
 LEVEL_NOTE = "trusts the sans-io driver's interpretation of commands; no reference parser needed for the relation itself"
 QUICK_N = 16_000
+QUICK_UP, THOROUGH_UP = 4_000, 200_000
 THOROUGH_N = 800_000
 
 
@@ -161,6 +162,8 @@ def _one_message_each(case):
 
 
 def check_case(case, ctx):
+    if case.get("upgrade"):
+        return check_upgrade(case, ctx)
     case["edits"] = []
     if (case.get("seg") or {}).get("sequential") and not _one_message_each(case):
         case["seg"]["sequential"] = False  # back to the pipelined relation (surplus server bytes are trimmed there)
@@ -231,7 +234,109 @@ def check_case(case, ctx):
         ctx.fail("seg-" + bucket, slot["cases"][0][2])
 
 
+# ---------------------------------------------------------------------------------------------------------------------
+# protocol upgrade (101) followed by opaque bytes: the same client and server byte streams, cut and interleaved differently
+def build_upgrade(rnd):
+    proto = rnd.pick([b"foo/1", b"raw", b"h2c", b"TLS/1.0"])
+    head = (b"GET http://a.example/up HTTP/1.1\r\nHost: a.example\r\nConnection: Upgrade\r\nUpgrade: " + proto + b"\r\n\r\n")
+    post_c = rnd.bytes_(rnd.pick([0, 1, 5, 40])) or (b"" if rnd.bool() else b"\x81\x85abcdhello")
+    resp = b"HTTP/1.1 101 Switching Protocols\r\nConnection: Upgrade\r\nUpgrade: " + proto + b"\r\n\r\n"
+    post_s = rnd.bytes_(rnd.pick([0, 1, 7, 33]))
+    craw, sraw = head + post_c, resp + post_s
+    def cuts(n):
+        k = rnd.pick(["none", "one", "k", "bytes"])
+        if n < 2 or k == "none":
+            return []
+        if k == "one":
+            return [rnd.int(1, n - 1)]
+        if k == "bytes":
+            return list(range(1, n))
+        return sorted(set(rnd.int(1, n - 1) for _ in range(rnd.int(2, 5))))
+    return {"upgrade": True, "head": head, "post_c": post_c, "resp": resp, "post_s": post_s,
+            "ccuts": cuts(len(craw)), "scuts": cuts(len(sraw)),
+            # after how many client segments the server starts to answer (it cannot answer before it has the request head)
+            "server_after": rnd.int(0, 6), "alternate": rnd.bool()}
+
+
+def _segments(raw, cuts):
+    pts = [0] + [c for c in sorted(set(cuts)) if 0 < c < len(raw)] + [len(raw)]
+    return [raw[a:b] for a, b in zip(pts, pts[1:]) if b > a]
+
+
+def run_upgrade(case, whole):
+    from driver import Driver, make_context, make_options
+    from mitmproxy.connection import ConnectionState
+    from mitmproxy.proxy.layers import http as http_layer
+    mctx = make_context(make_options())
+    hooks = []
+
+    def policy(hook):
+        hooks.append(hook.name)
+    d = Driver(mctx, http_layer.HttpLayer(mctx, http_layer.HTTPMode.regular), hook_policy=policy)
+    d.start()
+    craw, sraw = case["head"] + case["post_c"], case["resp"] + case["post_s"]
+    cs = [craw] if whole else _segments(craw, case["ccuts"])
+    ss = [sraw] if whole else _segments(sraw, case["scuts"])
+    sent_c = 0
+    ci = si = 0
+    n_after = 0 if whole else case["server_after"]
+    while (ci < len(cs) or si < len(ss)) and d.crashed is None:
+        head_in = sent_c >= len(case["head"])
+        server_ready = head_in and d.servers and (ci >= len(cs) or ci >= n_after)
+        if server_ready and si < len(ss) and (ci >= len(cs) or not case["alternate"] or si <= ci - n_after):
+            conn = d.servers[0]
+            if conn.state & ConnectionState.CAN_READ:
+                d.recv(conn, ss[si])
+            si += 1
+        elif ci < len(cs):
+            if mctx.client.state & ConnectionState.CAN_READ:
+                d.recv(mctx.client, cs[ci])
+            sent_c += len(cs[ci])
+            ci += 1
+        else:
+            if not d.servers:
+                break  # the request was never forwarded
+            conn = d.servers[0]
+            if conn.state & ConnectionState.CAN_READ:
+                d.recv(conn, ss[si])
+            si += 1
+    http_hooks = [h for h in hooks if h in ("requestheaders", "request", "responseheaders", "response", "error", "tcp_start", "tcp_end", "tcp_error")]
+    return d, http_hooks, bytes(d.out(mctx.client)), [bytes(d.out(c)) for c in d.servers]
+
+
+def check_upgrade(case, ctx):
+    for k in ("head", "post_c", "resp", "post_s"):
+        if not isinstance(case.get(k), bytes):
+            return  # shrunk outside the domain
+    import re
+    if not re.fullmatch(rb"GET http://a\.example/up HTTP/1\.1\r\nHost: a\.example\r\nConnection: Upgrade\r\nUpgrade: [A-Za-z0-9/.]+\r\n\r\n", case["head"]) \
+            or not re.fullmatch(rb"HTTP/1\.1 101 Switching Protocols\r\nConnection: Upgrade\r\nUpgrade: [A-Za-z0-9/.]+\r\n\r\n", case["resp"]):
+        return  # shrunk outside the domain
+    a = run_upgrade(case, True)
+    b = run_upgrade(case, False)
+    ctx.nt(("upgrade", tuple(case["ccuts"][:8]), tuple(case["scuts"][:8]), case["server_after"], len(case["post_c"]), len(case["post_s"])), "kind=upgrade")
+    early = any(c < len(case["head"]) + len(case["post_c"]) and c >= len(case["head"]) for c in case["ccuts"]) or not case["ccuts"]
+    ctx.cls("upgrade: client bytes behind the request head before the 101" if case["post_c"] and early else "upgrade: other")
+    for name, r in (("whole", a), ("segmented", b)):
+        if r[0].crashed is not None:
+            ctx.crash(r[0].crashed, "upgrade-crash:" + name)
+            return
+    if a[1] != b[1]:
+        ctx.fail("upgrade-seg-hooks", "whole=%r seg=%r" % (a[1], b[1]))
+    if a[3] != b[3]:
+        ctx.fail("upgrade-seg-server-bytes", "whole=%r seg=%r" % (a[3], b[3]))
+    if a[2] != b[2]:
+        ctx.fail("upgrade-seg-client-bytes", "whole=%r seg=%r" % (a[2][-80:], b[2][-80:]))
+    # and both equal what was sent: opaque bytes after the switch are relayed exactly
+    for name, r in (("whole", a), ("segmented", b)):
+        if r[3] and not r[3][0].endswith(case["post_c"]):
+            ctx.fail("upgrade-client-bytes-not-relayed:" + name, "server got %r, client sent %r after the head" % (r[3][0][-60:], case["post_c"]))
+        if not r[2].endswith(case["resp"] + case["post_s"]):
+            ctx.fail("upgrade-server-bytes-not-relayed:" + name, "client got %r" % r[2][-120:])
+
+
 def run(ctx):
+    runner.fast(ctx, build_upgrade, check_case, ctx.n(QUICK_UP, THOROUGH_UP), rnd_class=http1gen.R)
     runner.fast(ctx, build, check_case, ctx.n(QUICK_N, THOROUGH_N), rnd_class=http1gen.R)
     if ctx.thorough:
         # exhaustive single-split sweep over a sample of streams
